@@ -5,7 +5,7 @@
    (None = nothing: must be refused); block_values b = the integers a block holds, ascending. *)
 From Coq Require Import ZArith List Bool Sorted.
 Require Bit64 C08_Model C08_Spec.
-Require Import LE Marshal C09_Model C09_Lists C09_Bits C09_Case C09_Sound C09_Thms C09_Word C09_Check.
+Require Import LE Marshal C09_Model C09_Lists C09_Bits C09_Case C09_Sound C09_Thms C09_Word C09_Rev C09_Check.
 Import ListNotations.
 Open Scope Z_scope.
 
@@ -115,6 +115,26 @@ Theorem c09_tip_model_holds : forall v us n, 0 <= v < 2 ^ 32 -> Forall (fun u =>
   C09_Case.case_holds (CTip v us n (model_block_run (Some (tip_new v)) tip_set tip_getn us n)) = true.
 Proof. exact tip_model_holds. Qed.
 
+(* ---- Reverse of a block / of a list of blocks: a new block over the same Start holding the complement within the block
+   (so every block theorem above applies to it: it accepts exactly its block's integers and iterates exactly the
+   complement, ascending / descending); reversing twice gives the block back; the list form is element-wise; and every
+   clause of the monitor for the observed run (result fresh, receiver unchanged, Equal tells them apart) holds of the model ---- *)
+Theorem c09_reverse :
+  (forall b, length (bits b) = 16%nat ->
+     start (block_reverse b) = start b /\
+     wf (bits (block_reverse b)) /\
+     (forall j, in_range j -> member (bits (block_reverse b)) j = negb (member (bits b) j)) /\
+     (forall x, In x (block_values (block_reverse b)) <->
+                exists m, in_range m /\ member (bits b) m = false /\ x = m + 1024 * start b) /\
+     (forall u, (exists b', big_set (block_reverse b) u = Some b') <-> (0 <= u < MAXI64 /\ u / 1024 = start b)) /\
+     (forall u, (exists b', tip_set (block_reverse b) u = Some b') <-> u / 1024 = start b)) /\
+  (forall b, wf (bits b) -> block_reverse (block_reverse b) = b) /\
+  (forall bl, length (blocks_reverse bl) = length bl /\
+              forall k d, (k < length bl)%nat -> nth k (blocks_reverse bl) (block_reverse d) = block_reverse (nth k bl d)) /\
+  (forall tip st ms x y us n, Forall in_range ms -> (tip = true -> 0 <= st <= MAXTIP) -> (tip = false -> 0 <= st < 2 ^ 32) ->
+     C09_Case.case_holds (CRev tip st ms x y us n (model_reverse_run tip st ms x y us n)) = true).
+Proof. exact reverse_props. Qed.
+
 (* ---- list forms: the per-block iterations concatenated in the coded block order, truncated to n ---- *)
 Theorem c09_lists_concat : forall rv bl n, Forall (fun b => length (bits b) = 16%nat) bl -> 0 <= n ->
   bigs_getn rv bl n = IList (take n (flat_map (fun b => big_iter rv b 1024) bl)) /\
@@ -150,6 +170,7 @@ Print Assumptions c09_tip_roundtrip.
 Print Assumptions c09_tip_accepts.
 Print Assumptions c09_tip_order.
 Print Assumptions c09_tip_model_holds.
+Print Assumptions c09_reverse.
 Print Assumptions c09_lists_concat.
 Print Assumptions c09_prefix_refuted.
 Print Assumptions c09_boundary_counts.
